@@ -29,7 +29,14 @@ func RunCases(c *vk.Ctx, srv *drive.Srv, label string, n int, opt gen.Options, c
 			defer wg.Done()
 			defer func() { <-slots }()
 			r := c.Rand(fmt.Sprintf("case-%s-%d", label, i))
-			gc, store := Generate(c, srv, r, fmt.Sprintf("%s-%s-%d", c.ID, label, i), opt)
+			o := opt
+			if o.WideEvery > 0 && i%o.WideEvery == o.WideEvery-1 {
+				o.Wide = true
+			}
+			if o.AlgebraEvery > 0 && i%o.AlgebraEvery == o.AlgebraEvery-2 {
+				o.Algebra = true
+			}
+			gc, store := Generate(c, srv, r, fmt.Sprintf("%s-%s-%d", c.ID, label, i), o)
 			if gc == nil {
 				return
 			}
